@@ -118,3 +118,12 @@ package mdns
 //@ guarded AvahiProvider.autoReconnect, AvahiProvider.manualShutdown, AvahiProvider.setupSuccessful, AvahiProvider.listenerRunning, AvahiProvider.mdnsServiceData, AvahiProvider.resolveCB, AvahiProvider.avEntryGroup, AvahiProvider.avBrowser by AvahiProvider.mux
 //@ guarded AvahiProvider.serviceElements by AvahiProvider.muxEl
 //@ guarded ZeroconfProvider.zc, ZeroconfProvider.cancel by ZeroconfProvider.mux
+
+//@ fieldcover MdnsManager, AvahiProvider, ZeroconfProvider
+//@ immutable MdnsManager.ski, MdnsManager.deviceBrand, MdnsManager.deviceModel, MdnsManager.deviceSerial, MdnsManager.deviceType, MdnsManager.deviceCategories, MdnsManager.identifier, MdnsManager.serviceName, MdnsManager.ifaces, MdnsManager.port, MdnsManager.providerSelection
+// the application toggles auto-accept and shuts down while closing connections re-announce, and the resolver
+// goroutines report while Start is still running: flag, provider and report callback are shared state
+//@ guarded MdnsManager.autoaccept, MdnsManager.mdnsProvider, MdnsManager.report by MdnsManager.muxConfig
+//@ immutable AvahiProvider.ifaceIndexes, AvahiProvider.avServer, ZeroconfProvider.ifaces
+//@ noclaim AvahiProvider.shutdownChan, AvahiProvider.addServiceChan, AvahiProvider.removeServiceChan because written under AvahiProvider.mux but read by the listener goroutine without it (ordered only by the shutdown token); no avahi daemon in the sandbox to replay a schedule
+//@ noclaim ZeroconfProvider.ctx because written under ZeroconfProvider.mux by the listener goroutine that is also its only reader (and the parent of the browse goroutine it starts afterwards)
